@@ -240,10 +240,31 @@ def _dedup(cases):
     return tbl
 
 
+def push_stall(ctx, sb):
+    """The model's write fault on the real network path: a collector that accepts and never reads."""
+    def once():
+        return [r for r in vlib.run_harness(ctx, sb, args=["-pushstall"], timeout=120) if r.get("pushstall")][0]
+    r = once()
+    ctx.cov["push_stall"] = r
+    bad = (not r["returned"]) or r["locked"] or r["update"] != "ok"
+    if r["accepted"] < 1:
+        raise vlib.InfraError("push-stall scenario: the exporter never connected to the collector: %s" % r)
+    if bad:
+        r2 = once()
+        if (not r2["returned"]) or r2["locked"] or r2["update"] != "ok":
+            ctx.violation({"kind": "push_stall", "first": r, "second": r2},
+                          "push to a collector that accepts and never reads: PushMetrics %s (write deadline 1 s), metric %s afterwards, "
+                          "a line-processing update %s" % ("returned after %d ms" % r2["push_ms"] if r2["returned"] else "did not return within 20 s",
+                                                         "still read-locked" if r2["locked"] else "unlocked", r2["update"]))
+        else:
+            raise vlib.InfraError("push-stall scenario failed once, not twice: %s / %s" % (r, r2))
+
+
 def stress(ctx):
     """Liveness side of ExportLocks.tla on the real code: exports interleaved with line processing (GetDatum needs the
     metric's write lock; a waiting writer blocks new readers).  Every export and every update must complete."""
     sb = vlib.build(ctx, "c12stress")
+    push_stall(ctx, sb)
     rounds = 1500 if ctx.thorough else 150
     for k in range(3 if ctx.thorough else 1):
         rec = [r for r in vlib.run_harness(ctx, sb, args=["-rounds", str(rounds)], timeout=900, env={"VERIF_SEED": str(ctx.seed * 7 + k)}) if r.get("stress")][0]
